@@ -3,7 +3,7 @@
    Proofs/MergeHash.v.  The model (Model/Merge.v, Model/MergeConfig.v) is the
    code after the fix: commits listed in docs/C05.md. *)
 From Coq Require Import List Ascii String ZArith NArith Bool.
-From YP Require Import Outcome PyStr PyVal Doc PathParser Searches MergeConfig Merge SpecC05 MergeBasics MergeHash.
+From YP Require Import Outcome PyStr PyVal Doc PathParser Searches MergeConfig Merge SpecC05 MergeBasics MergeHash MergeNoCrash.
 (* obligations tying the models' literal tables to the tables regenerated from the source *)
 From YP Require Import GenTables.
 Import ListNotations.
@@ -148,6 +148,26 @@ Theorem C05_impossible_nested_is_MergeExc :
 Proof. exact impossible_below. Qed.
 Print Assumptions C05_impossible_nested_is_MergeExc.
 
+(* NEVER A CRASH.  For every pair of documents, every configuration (option
+   texts, [defaults], rule and key tables -- valid or not) and every
+   literal_eval that behaves, the merge ends in a document, in a
+   MergeException, or in the NameError of a policy lookup that met a text
+   outside its enumeration (a configuration error: mg_bad_lookup).  Never
+   AttributeError / KeyError / TypeError, never OutOfFuel (the merge model
+   uses no fuel: it is structurally recursive in the right-hand document). *)
+Theorem C05_no_crash :
+  forall lit cfg, mg_lit_ok lit -> forall l r, mg_clean cfg (merge_root lit cfg l r).
+Proof. exact merge_root_clean. Qed.
+Print Assumptions C05_no_crash.
+
+(* ... and with option / rule texts that are members of their enumerations
+   (computable: mg_cfg_valid) only the first two remain *)
+Theorem C05_no_crash_valid_config :
+  forall lit cfg l r, mg_lit_ok lit -> mg_cfg_valid cfg = true ->
+    (exists m, merge_root lit cfg l r = Ok m) \/ merge_root lit cfg l r = Raise MergeExc.
+Proof. exact merge_root_valid_config. Qed.
+Print Assumptions C05_no_crash_valid_config.
+
 (* ---------------- non-vacuity ---------------- *)
 Definition mapn (o : N) (kvs : list (node * node)) := NMap (mkinfo o None true None) kvs.
 Definition seqn (o : N) (els : list node) := NSeq (mkinfo o None true None) els.
@@ -174,6 +194,19 @@ Example C05_aoh_deep_example :
               mapn 22 [(k "id", leaf 6 (PInt 2))]]) =
   Ok (seqn 10 [mapn 11 [(k "id", leaf 3 (PInt 1)); (k "v", leaf 5 (PInt 2))]; mapn 22 [(k "id", leaf 6 (PInt 2))]]).
 Proof. vm_compute. reflexivity. Qed.
+
+(* the hypotheses of C05_no_crash are satisfiable; the NameError case exists *)
+Example C05_no_crash_example :
+  mg_lit_ok no_lit /\
+  mg_cfg_valid (mkconfig true [mkrule (mkcoord 21 (Some 20) (Some (PStr "a"))) "left"] [] None (Some "unique")
+                         (Some "deep") None None (Some "right") None None None None) = true /\
+  mg_cfg_valid (cfg_plain (Some "unique") None None None) = false /\
+  merge_root no_lit (cfg_plain (Some "unique") None None None)
+    (mapn 10 [(k "a", leaf 3 (PInt 1))]) (mapn 20 [(k "a", leaf 4 (PInt 2))]) = Raise name_error.
+Proof.
+  split; [intros s; exists LFail; split; [reflexivity|exact I]|].
+  repeat split; vm_compute; reflexivity.
+Qed.
 
 (* DESIGN #17, after the fix: {a: 1} merged with {a: []} is a merge error *)
 Example C05_empty_array_into_scalar :
